@@ -354,7 +354,8 @@ Definition step_replacer (V : variant) (s : shared) (todo : list rop) : option (
       | Some x =>
           if negb (f_listed x) && negb (f_removed x) && (v_gc_ignores_refs V || is_nil (f_hold x))
           then Some (map_file s f f_remove, t)
-          else if f_removed x then Some (s, t) else None      (* waits until de-listed and unreferenced *)
+          else if f_removed x || f_listed x then Some (s, t)  (* nothing to collect (already gone / still listed) *)
+          else None                                          (* de-listed but still referenced: waits for ref count 0 *)
       | None => Some (s, t)
       end
   | op :: t =>
